@@ -129,6 +129,8 @@ class TelegramQueue:
     async def start(self) -> None:
         """Start telegram queue."""
         self._stopping = False
+        # a pause of an earlier run may have been cancelled with it
+        self._rate_limiter = None
         self._consumer_task = asyncio.gather(
             self._telegram_consumer(), self._outgoing_rate_limiter()
         )
@@ -206,10 +208,11 @@ class TelegramQueue:
             rate_limited = bool(self.xknx.rate_limit) and not isinstance(
                 telegram.destination_address, InternalGroupAddress
             )
-            if rate_limited and self._rate_limiter is not None:
-                await self._rate_limiter
-
             try:
+                if rate_limited and self._rate_limiter is not None:
+                    # inside the `try` - a telegram taken from the queue is marked
+                    # done also when the wait is cancelled
+                    await self._rate_limiter
                 await self.process_telegram_outgoing(telegram)
             except CommunicationError as ex:
                 if ex.should_log:
@@ -222,7 +225,7 @@ class TelegramQueue:
                     "Unexpected error while processing outgoing telegram %s", telegram
                 )
             finally:
-                if rate_limited:
+                if rate_limited and self.xknx.rate_limit:
                     # the pause starts when the send is over - a send that had to wait
                     # (eg. for a management frame being confirmed) would use it up
                     self._rate_limiter = asyncio.create_task(
